@@ -764,6 +764,9 @@ class Interp:
             if len(lit) != k:
                 return False
             return parent.endswith(lit)
+        if any(tok[0] == 'pre' and tok[1] in ('PVS', 'PMS') for tok in t.tokens):
+            self.sink(n, 'config-compare', False, f"a storage-unit configuration string is compared with the "
+                                                  f"literal {lit!r}: behaviour depends on the storage setting")
         verdict, binding = t.equals(lit)
         if verdict is not None:
             return verdict
